@@ -14,6 +14,9 @@ RULE = ("one evaluation = one scheduler API call or one dispatch step (one real 
         "spanning two occurrences; Replace by a trigger with the same Description()). The stress engine (C03/C04/C08) passes a new trigger instance with every ScheduleJob (one in three finite, ending with its own "
         "error or ErrTriggerExpired), counts a fire time as consumed only if the same instance produced it, starts the schedulers 350 ms late in 2 of 9 runs, and runs ResumeJob on a contended queue lock "
         "(sync.Locker with 150 ms latency, PauseJob from a second goroutine in between: the trigger must not be asked from a moment before PauseJob was called); "
+        "plus (qh sched2, C04/C08) ResumeJob after a pause shorter than the remaining interval (the stored fire time must be the trigger's answer to a question asked inside the ResumeJob call, exact) "
+        "and a loop-side Push that fails for a moment (no dequeued fire time executed + misfired more than once); plus (qh lin, C09) histories whose calls arrive while the only job is being fired "
+        "(popped, its trigger held inside NextFireTime, not pushed back), judged by a linearizability search that includes Clear and GetJobKeys; "
         "a sequence is non-trivial if it mixes API calls and steps; distinct by hash of the op-kind sequence")
 
 
@@ -55,7 +58,12 @@ def _stress(ctx):
     return out
 
 
-EXTRA = {"C09": _lin, "C03": _stress, "C08": _stress, "C04": _stress}
+def _sched2(ctx):
+    # harness/cmd/qh/sched2.go: ResumeJob before the fire time that was pending at the pause (C08); a loop-side Push that fails for a moment (C04)
+    return [generic.engine_run(ctx, "sched2", ["--seed", str(ctx.seed), "--n", "1" if not ctx.thorough else "10"], "sched2", timeout=600)]
+
+
+EXTRA = {"C09": _lin, "C03": _stress, "C08": lambda ctx: _stress(ctx) + _sched2(ctx), "C04": lambda ctx: _stress(ctx) + _sched2(ctx)}
 
 
 def replay(ctx, path):
